@@ -21,6 +21,15 @@ pub enum ChunkDeserializationError {
     #[error("Requested an invalid max chunk size of {chunk_size}.  The chunk size must be between 1 and 2147483647")]
     InvalidMaxChunkSize { chunk_size: usize },
 
+    /// A chunk was received whose header declares a message length that is smaller than the
+    /// number of payload bytes that were already received for the message currently being read.
+    #[error("Received a chunk on csid {csid} for a message with a length of {message_length} bytes, but {bytes_already_received} bytes of the current message were already received")]
+    InvalidMessageLength {
+        csid: u32,
+        message_length: u32,
+        bytes_already_received: usize,
+    },
+
     /// An I/O error occurred while reading the input buffer
     #[error("{0}")]
     Io(#[from] io::Error),
